@@ -644,6 +644,8 @@ package app
 //@ func (*app.App).TryRepairReplication
 //@   requires notself: node != nil ==> node.host != master || channel == app.config.ExternalReplicationChannel
 //@   ensures C10.reset_gate [C10]: e_ResetSlaveAll > old(e_ResetSlaveAll) ==> app.config.ReplicationRepairAggressiveMode && channel != app.config.ExternalReplicationChannel && resultof("cooldownPassed", 1) && resultof("getSuitableAlgorithmType", 1, 2) == nil && resultof("getSuitableAlgorithmType", 1, 1) < app.config.ReplicationRepairMaxAttempts
+//@   ensures C10.attempt_counted [C10]: reached("getSuitableAlgorithmType", 1) && resultof("getSuitableAlgorithmType", 1, 2) == nil && resultof("getSuitableAlgorithmType", 1, 0) != ChangeSource ==> resultof("getOrCreateHostRepairState", 1, 0).History[resultof("getSuitableAlgorithmType", 1, 0)] == resultof("getSuitableAlgorithmType", 1, 1) + 1
+//@   ensures C10.attempt_stamped [C10]: reached("getSuitableAlgorithmType", 1) && resultof("getSuitableAlgorithmType", 1, 2) == nil ==> resultof("getOrCreateHostRepairState", 1, 0).LastAttempt == time_now
 //@   ensures C10.try_cooldown [C10]: reached("cooldownPassed", 1) && !resultof("cooldownPassed", 1) ==> mysqlUntouched()
 //@   ensures C10.try_frame [C10]: repairFrame(node)
 //@   assert_at getSuitableAlgorithmType#1 C10.try_after_cooldown [C10]: resultof("cooldownPassed", 1)
